@@ -170,15 +170,13 @@ def part_builtins(rep, per_fn):
                 outcomes["oom"] += 1
                 continue
             outcomes["died"] += 1
-            if sig.startswith("process "):
-                pending_signals.append((name, src, o))
-                continue
+            pending_signals.append((name, src, o, sig))
+            continue
             rep.violation("C07 %s" % sig, "call=%s stderr=%s" % (src, o.get("stderr", "")[-300:]),
                           {"kind": "builtin", "src": src})
         elif o.get("panic"):
             outcomes["panic"] += 1
-            rep.violation("C07 panic at %s" % core.panic_sig(o["panic"]), "call=%s" % src,
-                          {"kind": "builtin", "src": src})
+            pending_signals.append((name, src, o, "panic at %s" % core.panic_sig(o["panic"])))
         elif o.get("ok"):
             outcomes["ok"] += 1
             if len(rep.coverage["samples"]) < 3:
@@ -187,19 +185,23 @@ def part_builtins(rep, per_fn):
             outcomes["err"] += 1
             if len(rep.coverage["samples"]) < 6 and outcomes["err"] < 4:
                 rep.sample({"builtin_call": src, "error_kind": o.get("kind")})
-    # deaths by signal with no panic trace: does the same call survive without native code generation?
+    # every death / panic of a builtin call is re-run without native code generation: natively compiled
+    # library code that runs on after a failed type check corrupts memory, and the symptom (signal,
+    # abort, panic in an unrelated crate) is arbitrary -- the root cause is identified by this test
     if pending_signals:
-        outs2 = core.run_units([src for _, src, _ in pending_signals], per=1, tag="c07j", prelude=BUILTIN_SETUP,
+        outs2 = core.run_units([src for _, src, _, _ in pending_signals], per=1, tag="c07j", prelude=BUILTIN_SETUP,
                                timeout_ms=25000, env={"STEEL_JIT": "false"})
         kinds = dict(fns)
-        for (name, src, o), o2 in zip(pending_signals, outs2):
-            if o2 is not None and "died" not in o2 and not o2.get("panic"):
+        for (name, src, o, sig0), o2 in zip(pending_signals, outs2):
+            fine_without_jit = o2 is not None and "died" not in o2 and not o2.get("panic")
+            if fine_without_jit:
                 what = "stdlib closure" if kinds.get(name) == "closure" else "builtin"
-                sig = "native-code-only crash (%s; fine with STEEL_JIT=false) in %s applied to ill-typed arguments" % (
-                    o["died"], what)
+                sig = "native-code-only failure (fine with STEEL_JIT=false) in %s applied to ill-typed arguments" % what
+            elif sig0.startswith("process "):
+                sig = "builtin %s: %s" % (name, sig0)
             else:
-                sig = "builtin %s: process %s" % (name, o["died"])
-            rep.violation("C07 %s" % sig, "call=%s stderr=%s" % (src, o.get("stderr", "")[-300:]),
+                sig = sig0
+            rep.violation("C07 %s" % sig, "call=%s symptom=%s stderr=%s" % (src, sig0, o.get("stderr", "")[-300:]),
                           {"kind": "builtin", "src": src})
     rep.note("builtin_call_outcomes", outcomes)
     rep.note("builtins_called", len(seen_fn))
